@@ -199,7 +199,7 @@ class VhdHuge(IoSuite):
         return case["block_size"]
 
     def dist(self, case):
-        return {"alloc_k": case["alloc_k"], "size_log2": case["size"].bit_length() - 1}
+        return {"alloc_k": case["alloc_k"], "size_log2": case["size"].bit_length() - 1, "in_use": bool(case.get("in_use"))}
 
 
 # ----------------------------------------------------------------------------- VDI
@@ -259,7 +259,7 @@ class VdiHuge(IoSuite):
         return case["block_size"]
 
     def dist(self, case):
-        return {"alloc_k": case["alloc_k"], "size_log2": case["size"].bit_length() - 1}
+        return {"alloc_k": case["alloc_k"], "size_log2": case["size"].bit_length() - 1, "in_use": bool(case.get("in_use"))}
 
 
 # ----------------------------------------------------------------------------- VHDX
@@ -366,7 +366,8 @@ class HdsHuge(IoSuite):
             ent = {b: rng.weighted([((1 << 32) - 2 - j, 3), (10 + 2 * j, 2)]) for j, b in enumerate(alloc)}
             size = ncl * ms * 512
             c = {"kind": "v2", "version": 2, "m_sectors": ms, "size": size, "ncl": ncl, "ent": sorted(ent.items()),
-                 "first_block": 10 * ms, "file_size": (1 << 32) * ms * 512, "salt": rng.randrange(1 << 30), "alloc_k": k}
+                 "first_block": 10 * ms, "file_size": (1 << 32) * ms * 512, "salt": rng.randrange(1 << 30), "alloc_k": k,
+                 "in_use": i % 2 == 1}
             c["reqs"] = near_requests(rng, size, ms * 512, alloc, 1)
             out.append(c)
         return out
@@ -400,7 +401,7 @@ class HdsHuge(IoSuite):
         return case["m_sectors"] * 512
 
     def dist(self, case):
-        return {"alloc_k": case["alloc_k"], "size_log2": case["size"].bit_length() - 1}
+        return {"alloc_k": case["alloc_k"], "size_log2": case["size"].bit_length() - 1, "in_use": bool(case.get("in_use"))}
 
 
 class _Len(list):
@@ -436,6 +437,9 @@ class IoBound(Suite):
         for (kind, a, b), io in zip(impl_res["reqs"], impl_res["io"]):
             if io is None:
                 continue
+            if io.get("diff"):
+                fs.append(Finding("impl_vs_spec", f"{fmt}: {kind}({a},{b}) returned bytes that differ from the guest content at "
+                                  f"+{io['diff'][0]} (lengths {io['diff'][1]}/{io['diff'][2]})", f"{fmt}:io:content"))
             n = io["returned"]
             units = n // unit + 3
             bound = n + units * 3 * unit + (n // max(1, impl_res["coverage"]) + 2) * table + 65536
@@ -461,12 +465,13 @@ class VmdkIo(IoBound):
         while len(out) < n:
             c = c02.gen_case(rng, "quick")
             c["fsize"] = c["fsize"] + self.TAIL
+            c["with_parent"] = False
             out.append(c)
         return out
 
     def impl(self, case):
         from dissect.hypervisor.disk.vmdk import VMDK
-        fh, _ = c02.build_image(case)
+        fh, infl = c02.build_image(case)
         out = {"open": None, "reqs": [], "io": []}
         try:
             v = VMDK(fh)
@@ -496,8 +501,16 @@ class VmdkIo(IoBound):
                 out["io"].append(None)
                 continue
             out["reqs"].append([kind, a, b])
-            out["io"].append({"returned": len(r), "bytes": fh.bytes_read,
-                              "max_read": max([x[3] for x in fh.log if x[0] == "read"] or [0])})
+            io = {"returned": len(r), "bytes": fh.bytes_read,
+                  "max_read": max([x[3] for x in fh.log if x[0] == "read"] or [0])}
+            # correct at scale: the bytes are the guest bytes of the generator's intent (python oracle of C02)
+            s0, cnt, skip, want = c02.spec_range(case, kind, a, b)
+            if cnt <= 40000:
+                exp = c02.SUITES["vmdk"].intent_bytes(case, fh, infl, s0, cnt)[skip:skip + want]
+                got = r[:want]
+                if got != exp[:len(got)] or (kind != "raw" and len(got) != len(exp)):
+                    io["diff"] = [core.first_diff(got, exp), len(got), len(exp)]
+            out["io"].append(io)
         return out
 
     def dist(self, case):
@@ -513,6 +526,11 @@ class Qcow2Io(IoBound):
         n = 400 if tier == "thorough" else 40
         while len(out) < n:
             c = c01.gen_case(rng, "quick")
+            for _ in range(60):
+                # every other image keeps its clusters (compressed ones included) around and beyond 4 GiB / 16 TiB
+                if len(out) % 2 or c.get("place") in ("4g", "4g+", "16t"):
+                    break
+                c = c01.gen_case(rng, "quick")
             c["file_size"] = c["file_size"] + self.TAIL
             if c.get("datafile"):
                 c["data_size"] = c["data_size"] + self.TAIL
@@ -554,12 +572,20 @@ class Qcow2Io(IoBound):
                 out["io"].append(None)
                 continue
             out["reqs"].append([kind, a, b])
-            out["io"].append({"returned": len(r), "bytes": sum(f.bytes_read for f in files),
-                              "max_read": max([x[3] for f in files for x in f.log if x[0] == "read"] or [0])})
+            io = {"returned": len(r), "bytes": sum(f.bytes_read for f in files),
+                  "max_read": max([x[3] for f in files for x in f.log if x[0] == "read"] or [0])}
+            # correct at scale: the bytes are the guest bytes of the generator's intent (python oracle of C01)
+            want = max(0, min(b, int(q.size) - a))
+            exp = c01.intent_bytes(case, a, want, (fh, data, backing))
+            got = r[:want]
+            if got != exp:
+                io["diff"] = [core.first_diff(got, exp), len(got), len(exp)]
+            out["io"].append(io)
         return out
 
     def dist(self, case):
-        return {"cluster_bits": case["cluster_bits"], "ext": case["ext"], "datafile": case["datafile"]}
+        return {"cluster_bits": case["cluster_bits"], "ext": case["ext"], "datafile": case["datafile"],
+                "place": case.get("place")}
 
 
 SUITES = {"vmdk_io": VmdkIo(), "qcow2_io": Qcow2Io(), "vhd_huge": VhdHuge(), "vdi_huge": VdiHuge(), "vhdx_huge": VhdxHuge(), "hds_huge": HdsHuge()}
